@@ -810,58 +810,77 @@ func checkC25HexExponent(r *core.Run, p *core.Program) {
 	}
 	n := 0
 	for _, f := range funcsOf(pkg) {
-		ast.Inspect(f.Decl.Body, func(nd ast.Node) bool {
-			ifs, ok := nd.(*ast.IfStmt)
-			if !ok {
-				return true
-			}
-			base16 := false
-			ast.Inspect(ifs.Cond, func(k ast.Node) bool {
-				if be, ok := k.(*ast.BinaryExpr); ok && be.Op == token.EQL {
-					if c, isC := constInt(info, be.Y); isC && c == 16 {
-						if b, isB := info.TypeOf(be.X).Underlying().(*types.Basic); isB && b.Info()&types.IsInteger != 0 {
+		// functions that distinguish base 16 (`base == 16`, `case 16:` on an integer)
+		base16 := false
+		ast.Inspect(f.Decl.Body, func(k ast.Node) bool {
+			switch x := k.(type) {
+			case *ast.BinaryExpr:
+				if x.Op == token.EQL {
+					if c, isC := constInt(info, x.Y); isC && c == 16 {
+						if b, isB := info.TypeOf(x.X).Underlying().(*types.Basic); isB && b.Info()&types.IsInteger != 0 {
 							base16 = true
 						}
 					}
 				}
-				return true
-			})
-			if !base16 {
-				return true
-			}
-			inspectCalls(info, ifs.Cond, func(call *ast.CallExpr, cal *types.Func) {
-				if cal == nil || cal.Pkg() == nil || cal.Pkg().Path() != "strings" || len(call.Args) != 2 {
-					return
-				}
-				switch cal.Name() {
-				case "Contains", "ContainsRune", "ContainsAny", "Index", "IndexAny", "IndexByte", "IndexRune", "LastIndex", "LastIndexAny", "LastIndexByte":
-				default:
-					return
-				}
-				tv, ok := info.Types[call.Args[1]]
-				if !ok || tv.Value == nil {
-					return
-				}
-				var chars []rune
-				switch tv.Value.Kind() {
-				case constant.String:
-					chars = []rune(constant.StringVal(tv.Value))
-				case constant.Int:
-					v, _ := constant.Int64Val(tv.Value)
-					chars = []rune{rune(v)}
-				}
-				n++
-				bad := ""
-				for _, c := range chars {
-					if isHexDigit(c) {
-						bad += string(c)
+			case *ast.SwitchStmt:
+				if x.Tag != nil {
+					if b, isB := info.TypeOf(x.Tag).Underlying().(*types.Basic); isB && b.Info()&types.IsInteger != 0 {
+						for _, c := range x.Body.List {
+							for _, e := range c.(*ast.CaseClause).List {
+								if v, isC := constInt(info, e); isC && v == 16 {
+									base16 = true
+								}
+							}
+						}
 					}
 				}
-				r.Check("C25.hex-exponent", fmt.Sprintf("%s|%s", f.Name(), cal.Name()), call.Pos(), bad == "",
-					"in the base-16 branch the text is searched for "+strconv.Quote(bad)+", which are hexadecimal digits: a hexadecimal float element containing them is taken to have an exponent already and is then rejected or misread")
-			})
+			}
 			return true
 		})
+		if !base16 {
+			continue
+		}
+		// every search of the text for the exponent marker (a constant containing p or P) in such a function
+		inspectCalls(info, f.Decl.Body, func(call *ast.CallExpr, cal *types.Func) {
+			if cal == nil || cal.Pkg() == nil || cal.Pkg().Path() != "strings" || len(call.Args) != 2 {
+				return
+			}
+			switch cal.Name() {
+			case "Contains", "ContainsRune", "ContainsAny", "Index", "IndexAny", "IndexByte", "IndexRune", "LastIndex", "LastIndexAny", "LastIndexByte":
+			default:
+				return
+			}
+			tv, ok := info.Types[call.Args[1]]
+			if !ok || tv.Value == nil {
+				return
+			}
+			var chars []rune
+			switch tv.Value.Kind() {
+			case constant.String:
+				chars = []rune(constant.StringVal(tv.Value))
+			case constant.Int:
+				v, _ := constant.Int64Val(tv.Value)
+				chars = []rune{rune(v)}
+			}
+			isExp := false
+			for _, c := range chars {
+				if c == 'p' || c == 'P' {
+					isExp = true
+				}
+			}
+			if !isExp {
+				return
+			}
+			n++
+			bad := ""
+			for _, c := range chars {
+				if isHexDigit(c) {
+					bad += string(c)
+				}
+			}
+			r.Check("C25.hex-exponent", fmt.Sprintf("%s|%s", f.Name(), cal.Name()), call.Pos(), bad == "",
+				"the text of a base-16 float is searched for its exponent marker together with "+strconv.Quote(bad)+", which are hexadecimal digits: a hexadecimal float element containing them is taken to have an exponent already and is then rejected or misread")
+		})
 	}
-	r.Floor("C25.hex-exponent", "base-16 exponent searches", n, 2)
+	r.Floor("C25.hex-exponent", "base-16 exponent searches", n, 1)
 }
